@@ -2,7 +2,7 @@
    guards are generated from utils.py / intvol.pyx on every run. *)
 From Coq Require Import ZArith List Bool Lia.
 From NV.Generated Require Import IntvolTables RftFlags.
-From NV.C15 Require Import Model Proofs Proofs2 Proofs3 Proofs4 Proofs5.
+From NV.C15 Require Import Model Proofs Proofs2 Proofs3 Proofs4 Proofs5 Proofs6.
 Import ListNotations.
 Open Scope Z_scope.
 
@@ -133,6 +133,24 @@ Theorem rft_call_with_inplace_mul_refuted : exists st,
 Proof. exact call_imul_refuted. Qed.
 Print Assumptions rft_call_with_inplace_mul_refuted.
 
+(* (12) rft._hermitenorm_coeffs (the coefficient vector that rft.Q puts into every EC density; for dfd = inf the density of
+   dimension d is (2 pi)^-(d+1)/2 He_{d-1}(x) exp(-x^2/2)).  The loop `for r in range(1, n)` of the current rft.py, modelled
+   statement by statement (Model.hermitenorm_coeffs), returns for EVERY n the probabilists' Hermite polynomial: its values
+   (Horner evaluation, highest power first, as np.poly1d does) satisfy He_0 = 1, He_1 = x, He_{n+2} = x He_{n+1} - (n+1) He_n
+   at every integer x - which determines the polynomial. *)
+Theorem hermitenorm_coeffs_three_term_recurrence : forall n x,
+  hev (hermitenorm_coeffs 0) x = 1 /\ hev (hermitenorm_coeffs 1) x = x /  hev (hermitenorm_coeffs (S (S n))) x = x * hev (hermitenorm_coeffs (S n)) x - Z.of_nat (S n) * hev (hermitenorm_coeffs n) x.
+Proof. intros n x. destruct (herm_base x) as [A B]. repeat split; [exact A|exact B|apply herm_recurrence]. Qed.
+Print Assumptions hermitenorm_coeffs_three_term_recurrence.
+
+(* (13) ... and the vector has exactly n+1 entries (the padding `[0]*(len(shifted)-len(a))` never truncates in `zip`), is
+   monic, and every coefficient at odd distance from the leading one is exactly 0 (He_n has the parity of n: no spurious
+   odd-parity coefficients, the defect of the former np.around(hermitenorm(n).c)), for every n. *)
+Theorem hermitenorm_coeffs_degree_monic_parity : forall n,
+  length (hermitenorm_coeffs n) = S n /\ nth 0 (hermitenorm_coeffs n) 0 = 1 /  (forall i, Nat.odd i = true -> nth i (hermitenorm_coeffs n) 0 = 0).
+Proof. intros n. repeat split; [apply herm_length|apply herm_monic|apply herm_parity]. Qed.
+Print Assumptions hermitenorm_coeffs_degree_monic_parity.
+
 (* non-vacuity *)
 Definition hollow3 : pt -> bool := fun p => negb (pt_eqb p (1, 1, 1)).
 Example EC3d_hollow_cube : EC3d 3 3 3 hollow3 = 2 /\ length (Kenum 3 3 3 hollow3 3) = 24%nat.
@@ -140,3 +158,5 @@ Proof. split; vm_compute; reflexivity. Qed.
 Definition ring2 : pt -> bool := fun p => negb (pt_eqb p (1, 1, 0)).
 Example EC2d_ring : EC2d_guarded 3 3 ring2 = 0 /\ EC2d_noguard 3 3 ring2 = 0 /\ chi 3 3 1 ring2 = 0.
 Proof. repeat split; vm_compute; reflexivity. Qed.
+Example hermitenorm_coeffs_He6 : hermitenorm_coeffs 6 = [1; 0; -15; 0; 45; 0; -15] /\ hev (hermitenorm_coeffs 6) 2 = -11.
+Proof. split; vm_compute; reflexivity. Qed.
